@@ -1,6 +1,7 @@
 (* crash_main.ml: evaluates the extracted Model/Crash on the observations of
    harness vh_crash and the executable oracles of property C14. *)
 let limit = 4096
+let marker = bytes_of_string "\ntruncated\n"
 let fixed_name = bytes_of_string "crash/no-running-goroutine"
 let crash_prefix_nl = bytes_of_string "crash/crash\n"
 
@@ -79,6 +80,16 @@ let check_record (r : record) =
                                     (min 16 (List.length r.pcs)) (short r.name) (short r.enc16))
       end;
       if List.length r.name > limit then prop "length-bound" (Printf.sprintf "len=%d" (List.length r.name));
+      (* a name longer than the limit before truncation: exactly 4096 bytes, ending with the marker *)
+      if r.pcs <> [] then begin
+        let rawlen = List.length (encode_raw c_crash_prefix r.frames) in
+        if rawlen > limit then begin
+          let n = List.length r.name in
+          let tail = List.filteri (fun i _ -> i >= n - List.length marker) r.name in
+          if not (n = limit && tail = marker) then
+            prop "truncation-marked" (Printf.sprintf "untruncated-length=%d len=%d tail=%S" rawlen n (string_of_bytes tail))
+        end
+      end;
       (* non-interference: equal projections -> equal names *)
       (match view_key r.child v with
        | None -> ()
@@ -141,4 +152,13 @@ let handle kind c =
         | Some _, _ -> diff "scan-sentinel" ~model:"ok" ~impl:(st ^ " " ^ show_b l))
   | k -> diff "unknown-case-kind" ~model:k ~impl:"-"
 
-let () = run_file Sys.argv.(1) handle
+(* Reports with 200 KiB lines make the extracted (non tail-recursive) list
+   functions recurse several hundred thousand frames deep: re-execute once
+   with a larger system stack (OCaml 4.x native code uses the system stack). *)
+let () =
+  match Sys.getenv_opt "VERIF_CRASH_RUNNER_BIGSTACK" with
+  | None ->
+    let cmd = Printf.sprintf "ulimit -s unlimited 2>/dev/null || ulimit -s 4000000 2>/dev/null; VERIF_CRASH_RUNNER_BIGSTACK=1 exec %s %s"
+        (Filename.quote Sys.executable_name) (Filename.quote Sys.argv.(1)) in
+    exit (Sys.command cmd)
+  | Some _ -> run_file Sys.argv.(1) handle
